@@ -23,6 +23,8 @@ def run(rep, tier):
     H.r_crossed_table(rep, hc)
     rep.rule("R-EVT-ONE", "the direction filter is applied to (previous value, current value) of the same event function in the order of integration (symbolic values of the arguments of the sign-change test)")
     H.r_evt_args(rep, hc)
+    rep.rule("R-EVT-PAIR", "every evaluation of the event functions in the handler is made at a consistent (time, state) pair: (x, y) or (t, interpolant(t)) for the same t")
+    H.r_evt_eval_pair(rep, hc)
     H.r_evt_sort(rep, hc)
     rep.rule("R-TIME-MINMAX", "time points in the output handler are never ordered with a bare min/max/clamp (direction-dependent): only sorted pairs or under a direction test")
     H.r_time_minmax(rep, hc)
